@@ -52,8 +52,14 @@ DENY = [
     ("core::mem::transmute", "transmute"),
 ]
 # deny-listed callees that are accepted, each with the reason it cannot carry state between calls
+_ONCE = "Once-guarded initialisation of a zero-sized profile: every initialisation yields the type's single value"
 ALLOW = {
-    "lazy_static::lazy::Lazy::<T>::get": "Once-guarded initialisation of a zero-sized profile: every initialisation yields the type's single value",
+    "lazy_static::lazy::Lazy::<T>::get": _ONCE,
+    "std::sync::once_lock::OnceLock::<T>::get_or_init": _ONCE,
+    "std::sync::once_lock::OnceLock::<T>::new": _ONCE,
+    "<std::sync::lazy_lock::LazyLock<T, F> as core::ops::deref::Deref>::deref": _ONCE,
+    "std::sync::lazy_lock::LazyLock::<T, F>::force": _ONCE,
+    "std::sync::lazy_lock::LazyLock::<T, F>::new": _ONCE,
 }
 ALLOWED_CRATES = {"core", "alloc", "std", "unicode_normalization", "lazy_static", "precis_core", "precis_profiles"}
 INTERIOR = re.compile(r"(\bCell<|RefCell<|Mutex<|RwLock<|\bAtomic[A-Z]|UnsafeCell<|OnceCell<|OnceLock<|LazyLock<|LazyCell<|\*mut |\*const |Rc<|Arc<)")
@@ -82,9 +88,10 @@ def static_rules(prog, rep, crates, positive=False):
         if s["mutable"]:
             okk, why = False, "`static mut`: shared mutable state"
         elif not s["freeze"]:
-            m = re.match(r"^lazy_static::lazy::Lazy<(.+)>$", s["ty"])
-            if not (m and m.group(1) in PROFILE_TYPES):
-                okk, why = False, "static with interior mutability of type %s (only the lazy_static cells of the zero-sized profiles are accepted)" % s["ty"]
+            from .. import oncecell
+
+            if oncecell.payload_type(s["ty"]) not in PROFILE_TYPES:
+                okk, why = False, "static with interior mutability of type %s (only the once-initialised cells — lazy_static, OnceLock, LazyLock — of the zero-sized profiles are accepted)" % s["ty"]
         if positive:
             n_bad += 0 if okk else 1
         else:
@@ -367,9 +374,13 @@ def run(tier):
     # ---------------- (a) state
     ns, _ = static_rules(prog, rep, LIB)
     nt, _ = type_rules(prog, rep, LIB)
-    rep.floor("library statics examined", ns, 55)
-    rep.floor("library types examined", nt, 15)
-    lazies = [s for p, s in prog.statics.items() if s["crate"] in LIB and s["ty"].startswith("lazy_static::lazy::Lazy<")]
+    # 55 on the pinned tree, of which four are the wrapper statics lazy_static! adds next to each profile singleton
+    rep.floor("library statics examined", ns, 51)
+    # 15 on the pinned tree, of which four are the unit structs lazy_static! declares for the profile singletons
+    rep.floor("library types examined", nt, 11)
+    from .. import oncecell
+
+    lazies = [s for p, s in prog.statics.items() if s["crate"] in LIB and oncecell.payload_type(s["ty"]) is not None]
     rep.ob("no-hidden-state", "lazy_static cells", len(lazies) == 4, "expected the four profile singletons, found %d" % len(lazies))
     # ---------------- (b) single-valued types
     for ty in PROFILE_TYPES + CLASS_TYPES:
